@@ -19,9 +19,28 @@ def run(tier, seed):
     progs = []
     for p in base:
         pv = g.params_values(small=True)
+        # the function outputs get a parameter of their own (used nowhere else in the model), and the model gets
+        # default parameters that differ from the values supplied to the runs
+        pv["zeta"] = g.rng.choice(["3/4", "3/2", "5/8"])
+        for o in p["ops"]:
+            if o["op"] == "req" and o["req"]["type"] == "func":
+                o["req"]["params"] = [{"p": "zeta"} if isinstance(e, dict) else e for e in o["req"]["params"]]
+        chain = g.rng.random() < 0.5
+        if chain:
+            # a pruned function output (the only user of zeta) that reaches a kept output through a cumulative output,
+            # next to a kept function output that does not use zeta
+            src = [o["name"] for o in p["ops"] if o["op"] == "req"][0]
+            p["ops"] += [{"op": "req", "name": "fz", "save": True, "req": {"type": "func", "fn": 0, "sources": [src, src], "params": [{"p": "zeta"}]}},
+                         {"op": "req", "name": "fc", "save": True, "req": {"type": "func", "fn": 0, "sources": [src, src], "params": ["1/2"]}},
+                         {"op": "req", "name": "cz", "save": True, "req": {"type": g.rng.choice(["cum", "agg"]), "source": "fz", "sources": ["fz"], "start": None}}]
+        if g.rng.random() < 0.6:
+            at = min(i for i, o in enumerate(p["ops"]) if o["op"] == "req")
+            p["ops"].insert(at, {"op": "setdefaults", "params": {k: "1/4" for k in pv}})
         names = [o["name"] for o in p["ops"] if o["op"] == "req"]
         subsets = [list(c) for r in range(1, len(names) + 1) for c in itertools.combinations(names, r)]
         picks = subsets if tier == "thorough" else g.rng.sample(subsets, min(4, len(subsets)))
+        if chain and ["fc", "cz"] not in picks:
+            picks = picks + [["fc", "cz"]]
         solver_ok = (not p["nonlinear"]) or nsteps(p) <= 2
         # full evaluation (with the oracle on the implementation) ...
         q = dict(p)
@@ -42,7 +61,8 @@ def run(tier, seed):
             nontrivial.add(checklib.signature(p))
     return {"programs": progs, "explore": ex, "distinct_nontrivial": len(nontrivial),
             "rule": "models with 2-6 chained derived-output requests (flow, compartment, aggregate, cumulative, function, "
-                    "computed value); for each: whitelists (4 random subsets quick / all subsets thorough) compared with the "
+                    "computed value), function outputs with a parameter used nowhere else, default parameters that differ from "
+                    "the supplied values; for each: whitelists (4 random subsets quick / all subsets thorough) compared with the "
                     "model; on the implementation bit-exact comparison (float.hex) of every kept value against the full "
                     "evaluation over whitelists, save-flag vectors, dependency-consistent declaration orders and "
                     "include_full_outputs=False; non-trivial = builds and returns at least one derived output",
